@@ -24,6 +24,9 @@ META = {
     "assumptions": ["finite floats as reals"],
 }
 
+from engine import monitor as _monitor          # noqa: E402
+META["audit"] = lambda: _monitor.audit(('H2',))
+
 
 def snap_cfg(c):
     d = dict(c.__dict__)
